@@ -46,6 +46,7 @@ def setup(ctx):
     ctx.require("monitor", "refusals_seen", 200)
     ctx.require("monitor", "admissions_seen", 200)
     ctx.require("monitor", "live_decisions", 3)
+    ctx.require("monitor", "crowd_decisions", 5000)
 
 
 def v4(n):
@@ -263,6 +264,44 @@ def run_object(ctx, cfg, peers):
         close_loop(loop)
 
 
+def run_crowd(ctx, rng):
+    """One access-control component that lives as long as a server does: thousands of distinct peers come by, and the
+    early ones come back.  The decision about a peer is a function of the lists and the peer - not of who else called."""
+    from nauyaca.server.middleware import AccessControl, AccessControlConfig
+
+    for cfg in ({"allow": ["10.0.0.0/8"], "deny": ["10.1.0.0/16"], "default_allow": True}, {"allow": None, "deny": ["2001:db8:1::/48", "192.0.2.0/24"], "default_allow": True}):
+        ac = AccessControl(AccessControlConfig(allow_list=cfg["allow"], deny_list=cfg["deny"], default_allow=cfg["default_allow"]))
+        n = ctx.pick(3000, 70000)
+        crowd = []
+        for j in range(n):
+            r = rng.random()
+            if r < 0.4:
+                crowd.append(f"10.0.{(j >> 8) & 255}.{j & 255}" if j < 65536 else f"10.2.{(j >> 8) & 255}.{j & 255}")
+            elif r < 0.6:
+                crowd.append(f"10.1.{(j >> 8) & 255}.{j & 255}")
+            elif r < 0.8:
+                crowd.append(f"192.0.{2 + (j >> 16)}.{j & 255}" if j < 256 else f"198.51.{(j >> 8) & 255}.{j & 255}")
+            else:
+                crowd.append(f"2001:db8:{1 + (j & 1):x}::{j:x}")
+        visits = [(p, "crowd:first-visit") for p in crowd] + [(p, "crowd:return") for p in crowd[:1500]] + [(p, "crowd:return") for p in rng.sample(crowd, 500)]
+        loop = new_loop()
+        try:
+            for peer, pos in visits:
+                try:
+                    r = loop.run_until_complete(ac.process_request("gemini://x/", peer, None))
+                except Exception as e:  # noqa: BLE001
+                    ctx.violation(f"decision-raised:{type(e).__name__}:via=object", f"deciding about peer {peer!r} raised {type(e).__name__}: {str(e)[:80]}", {"config": cfg, "peer": peer, "position": pos})
+                    continue
+                admit = bool(r[0])
+                status = None
+                if not admit:
+                    status = int(r[1][:2]) if r[1] and r[1][:2].isdigit() and r[1].endswith("\r\n") else -1
+                judge(ctx, cfg, "object", peer, pos, admit, status, wit_extra={"distinct_peers_seen_by_this_component": n})
+                ctx.count("monitor", "crowd_decisions")
+        finally:
+            close_loop(loop)
+
+
 def run_effect(ctx, cfg, peers):
     """What is carried out, not only what is answered: behind the access-control component a refused peer's
     request - Gemini, Titan upload or Titan delete - reaches no handler at all; an admitted one reaches exactly one."""
@@ -461,5 +500,7 @@ def run(ctx):
             ctx.count("shape", shape(cfg))
         if ctx.shard == 0:
             run_live(ctx, base)
+        if ctx.mine(1) or ctx.nshards == 1:
+            run_crowd(ctx, rng)
     finally:
         shutil.rmtree(base, ignore_errors=True)
